@@ -1,5 +1,9 @@
 """C07 — an abandoned request (timeout, dropped stream) never harms the server."""
 from contracts.server import UNITS_C07, ASSUMPTIONS
 from contracts.fifo import ConsumerUnit, ConsumerUnitNoPre
-UNITS = list(UNITS_C07) + [ConsumerUnit, ConsumerUnitNoPre]
+# "every other pending or later request is still answered ... and the server still shuts down normally" also rests on: the enqueue side (a waiter is woken by
+# the notification the late result still produces), the async stream/call entry points (which abandon by cancelling), and the exit paths (which join the helper threads)
+from contracts.server import EnqueueUnit, AEnqueueUnit, NotifyUnit, UNITS_ENTRY
+from contracts.c11 import ServerExit, ServerExitThreadQ, AServerExit, OnboardUnit
+UNITS = list(UNITS_C07) + [ConsumerUnit, ConsumerUnitNoPre, EnqueueUnit, AEnqueueUnit, NotifyUnit] + list(UNITS_ENTRY) + [ServerExit, ServerExitThreadQ, AServerExit, OnboardUnit]
 SCENARIOS = [('', 'replay/scenarios/c07_cancel_window.py')]
